@@ -14,12 +14,14 @@
      arguments of the events, filled in by the harness with what it observed and checked
      by [wf_ev]/[valid_pub] to be an allowed choice;
    - the etcd DELETE event carries no value; container.OnDelete ignores kv.Val;
-   - container.snapshot/dirty (the cache inside getValues) is not state of the model:
-     getValues is modelled as "keys of values"; a stale cache shows up as a disagreement;
+   - container.snapshot/dirty (the cache inside getValues) IS state of the model
+     ([cdirty], [csnap]): addKv / removeKey set the dirty bit, [get_values] rebuilds the
+     snapshot iff it is set; the listener funcs and the harness read Values() through it;
    - in exclusive mode addKv ranges over the slice [keys] while doRemoveKey rewrites that
      slice in place; the model folds over a copy.  The two coincide because an exclusive
      container never holds two keys for one value (Proofs.exclusive_one_key_per_value). *)
 From Coq Require Import List ZArith Bool.
+From GZgen Require Import C13Consts.
 Import ListNotations.
 Open Scope Z_scope.
 
@@ -56,12 +58,26 @@ Record container := mkC
     cvals : amap (list Z);   (* container.values  : value -> keys *)
     cmap : amap Z;           (* container.mapping : key -> value *)
     cnotes : Z;              (* how many times each listener func was called *)
-    clast : list Z }.        (* Values() as seen by the listeners at the last call *)
+    clast : list Z;          (* Values() as seen by the listeners at the last call *)
+    cdirty : bool;           (* container.dirty *)
+    csnap : list Z }.        (* container.snapshot (nil before the first getValues) *)
 
-Definition new_container (x : bool) : container := mkC x [] [] 0 [].
+Definition new_container (x : bool) : container := mkC x [] [] 0 [] true [].
 
-(* getValues (as a set) *)
+(* the freshly computed view: the keys of container.values *)
 Definition c_view (c : container) : list Z := mkeys (cvals c).
+
+(* getValues: through the cache *)
+Definition get_values (c : container) : container * list Z :=
+  if cdirty c
+  then (mkC (cexcl c) (cvals c) (cmap c) (cnotes c) (clast c) false (c_view c), c_view c)
+  else (c, csnap c).
+
+(* Subscriber.Values() as a caller sees it *)
+Definition c_values (c : container) : list Z := snd (get_values c).
+
+Definition set_dirty (c : container) : container :=
+  mkC (cexcl c) (cvals c) (cmap c) (cnotes c) (clast c) true (csnap c).
 
 Definition do_remove_key (key : Z) (c : container) : container :=
   match mget key (cmap c) with
@@ -70,8 +86,11 @@ Definition do_remove_key (key : Z) (c : container) : container :=
     let remain := filter (fun k => negb (k =? key)) (getl server (cvals c)) in
     mkC (cexcl c)
         (if is_nil remain then mdel server (cvals c) else mset server remain (cvals c))
-        (mdel key (cmap c)) (cnotes c) (clast c)
+        (mdel key (cmap c)) (cnotes c) (clast c) (cdirty c) (csnap c)
   end.
+
+(* removeKey: dirty.Set(true); doRemoveKey *)
+Definition remove_key (key : Z) (c : container) : container := set_dirty (do_remove_key key c).
 
 Definition add_kv (key value : Z) (c : container) : container :=
   (* fix of F3: a key that comes with a new value is detached from the previous one *)
@@ -82,15 +101,21 @@ Definition add_kv (key value : Z) (c : container) : container :=
   let keys := getl value (cvals c1) in
   let c2 := if cexcl c1 && negb (is_nil keys)
             then fold_left (fun c' k => do_remove_key k c') keys c1 else c1 in
+  (* c.dirty.Set(true) is the first statement of addKv *)
   mkC (cexcl c2) (mset value (getl value (cvals c2) ++ [key]) (cvals c2))
-      (mset key value (cmap c2)) (cnotes c2) (clast c2).
+      (mset key value (cmap c2)) (cnotes c2) (clast c2) true (csnap c2).
 
-(* notifyChange: every listener func is called once and sees the current view *)
-Definition notify (c : container) : container :=
-  mkC (cexcl c) (cvals c) (cmap c) (cnotes c + 1) (c_view c).
+(* notifyChange: every listener func is called once; [reads]: the listener funcs call
+   Values() (discovBuilder's update() and the harness listeners do) and see its result *)
+Definition notify_gen (reads : bool) (c : container) : container :=
+  if reads then
+    let '(c', v) := get_values c in
+    mkC (cexcl c') (cvals c') (cmap c') (cnotes c' + 1) v (cdirty c') (csnap c')
+  else mkC (cexcl c) (cvals c) (cmap c) (cnotes c + 1) (clast c) (cdirty c) (csnap c).
+Definition notify := notify_gen true.
 
 Definition on_add (k v : Z) (c : container) : container := notify (add_kv k v c).
-Definition on_delete (k : Z) (c : container) : container := notify (do_remove_key k c).
+Definition on_delete (k : Z) (c : container) : container := notify (remove_key k c).
 
 (* calls of the UpdateListener interface *)
 Inductive lev := LAdd (k v : Z) | LDel (k : Z).
@@ -99,6 +124,13 @@ Definition c_apply (c : container) (e : lev) : container :=
   match e with LAdd k v => on_add k v c | LDel k => on_delete k c end.
 
 Definition c_run (c : container) (l : list lev) : container := fold_left c_apply l c.
+
+(* the same call with listener funcs that do / do not read Values() *)
+Definition c_apply_gen (reads : bool) (c : container) (e : lev) : container :=
+  match e with
+  | LAdd k v => notify_gen reads (add_kv k v c)
+  | LDel k => notify_gen reads (remove_key k c)
+  end.
 
 (* the views handed to the listener funcs, one per call *)
 Fixpoint c_trace (c : container) (l : list lev) : list (list Z) :=
@@ -128,13 +160,20 @@ Definition adds_val (v : Z) (e : lev) : bool :=
   match e with LAdd _ v' => v' =? v | LDel _ => false end.
 
 (* ---------------------------------------------------------------- registry *)
+(* one watch event of a watch response *)
+Inductive bev := BPut (k v : Z) | BDel (k : Z).
+Definition blev (b : bev) : lev := match b with BPut k v => LAdd k v | BDel k => LDel k end.
+Definition bapply (m : amap Z) (b : bev) : amap Z :=
+  match b with BPut k v => mset k v m | BDel k => mdel k m end.
+
 Inductive ev :=
 | EPut (k v : Z)                 (* watch event PUT   -> handleWatchEvents *)
 | EDelete (k : Z)                (* watch event DELETE-> handleWatchEvents *)
 | EReload (snap : list (Z * Z))  (* Get response      -> handleChanges *)
           (calls : list lev)     (* oracle: the OnAdd / OnDelete calls in the order they were made *)
-| EJoin (x : bool) (order : list (Z * Z)).        (* Registry.Monitor of a new container on the
+| EJoin (x : bool) (order : list (Z * Z))         (* Registry.Monitor of a new container on the
                                                      existing watcher; oracle: replay order *)
+| EBatch (b : list bev).         (* ONE handleWatchEvents call with several events, in order *)
 
 Record sys := mkSys
   { rvals : amap Z;              (* watchValue.values *)
@@ -169,6 +208,7 @@ Definition emitted (e : ev) : list lev :=
   | EDelete k => [LDel k]
   | EReload _ calls => calls
   | EJoin _ _ => []
+  | EBatch b => map blev b
   end.
 
 Definition step (s : sys) (e : ev) : sys :=
@@ -177,6 +217,7 @@ Definition step (s : sys) (e : ev) : sys :=
   | EDelete k => mkSys (mdel k (rvals s)) (map (fun c => c_run c (emitted e)) (conts s))
   | EReload snap _ => mkSys (snap_map snap) (map (fun c => c_run c (emitted e)) (conts s))
   | EJoin x order => mkSys (rvals s) (conts s ++ [c_run (new_container x) (ladds order)])
+  | EBatch b => mkSys (fold_left bapply b (rvals s)) (map (fun c => c_run c (emitted e)) (conts s))
   end.
 
 Definition run (s : sys) (l : list ev) : sys := fold_left step l s.
@@ -188,6 +229,7 @@ Definition truth_step (t : amap Z) (e : ev) : amap Z :=
   | EDelete k => mdel k t
   | EReload snap _ => snap_map snap
   | EJoin _ _ => t
+  | EBatch b => fold_left bapply b t
   end.
 Definition truth (l : list ev) : amap Z := fold_left truth_step l [].
 
@@ -207,7 +249,9 @@ Inductive kev :=
 | KAdd (o : kobj)            (* OnAdd(o, _) *)
 | KDelete (o : kobj)         (* OnDelete(o) *)
 | KOnUpdate (old new : kobj) (* OnUpdate(old, new) *)
-| KUpdate (o : kobj).        (* Update(o) *)
+| KUpdate (o : kobj)         (* Update(o) *)
+| KOther                     (* OnAdd / OnDelete / OnUpdate with an object that is not *v1.Endpoints: ignored *)
+| KTombstone (o : kobj).     (* OnDelete(cache.DeletedFinalStateUnknown{Obj: o}): ignored by the code *)
 
 Record kstate := mkK
   { kend : list Z;           (* h.endpoints (a set: no duplicates) *)
@@ -246,6 +290,9 @@ Definition k_update (o : kobj) (s : kstate) : kstate :=
 Definition kstep (s : kstate) (e : kev) : kstate :=
   match e with
   | KAdd o =>
+    (* [gen_kubeOnAddReplaces] is read off the source at every run: OnAdd either unions the
+       object's addresses into the set (pinned code) or replaces the set (h.Update) *)
+    if gen_kubeOnAddReplaces then k_update o s else
     let '(n, ch) := kadd_all (ips o) (kend s) false in
     let s' := mkK n (kcount s) (klast s) in if ch then knotify s' else s'
   | KDelete o =>
@@ -253,6 +300,8 @@ Definition kstep (s : kstate) (e : kev) : kstate :=
     let s' := mkK n (kcount s) (klast s) in if ch then knotify s' else s'
   | KOnUpdate old new => if orv old =? orv new then s else k_update new s
   | KUpdate o => k_update o s
+  | KOther => s
+  | KTombstone _ => s
   end.
 
 Definition krun (s : kstate) (l : list kev) : kstate := fold_left kstep l s.
@@ -265,5 +314,7 @@ Definition ktruth_step (t : list Z) (e : kev) : list Z :=
   | KDelete _ => []
   | KOnUpdate _ new => ips new
   | KUpdate o => ips o
+  | KOther => t
+  | KTombstone _ => []
   end.
 Definition ktruth (l : list kev) : list Z := fold_left ktruth_step l [].
